@@ -25,6 +25,11 @@ def sh(cmd, cwd=None, env=None, timeout=3000):
 def main():
     src, sid, props = os.path.abspath(sys.argv[1]), sys.argv[2], sys.argv[3:]
     meta = json.load(open(os.path.join(src, "meta.json")))
+    if "what_i_ran" in meta and "demo_copy_to" not in meta:
+        # re-run from /verif/seeded/<id>/: recover where the demo goes from our own earlier record
+        m = re.search(r"demo copied to (\S+)\)", meta.get("demo_cmd", ""))
+        if m:
+            meta["demo_copy_to"] = m.group(1)
     patch = os.path.join(src, "patch.diff")
     demo = os.path.join(src, "demo_test.go")
     wt = "/tmp/wt-seed-%d" % os.getpid()
